@@ -24,8 +24,9 @@ RULE = ("R-score compositions restricted to velocity 1-127 and values with an in
         "key and meter of every bar; bpm 4..1000 exhaustively; every key x meter systematically; the VLQ reader on the reference "
         "encoding of a dense range and all power-of-two neighbourhoods (thorough: all 2^28 values); corrupted header/track tags "
         "and format words. Non-trivial: a score with a rest and a chord, a key with accidentals, or a leading rest; a bpm that "
-        "is not a divisor of 60000000; a VLQ range above 127; every corruption."
-        ' Also: values given as 288/k ticks, names of 120-300 characters, twin bars, shared instrument objects, tempo-carrying containers, and one reader object used for two different files.')
+        "is not a divisor of 60000000; a VLQ range above 127; every corruption. Also: compositions with a track that has no bars "
+        "among the others; whole tags replaced by the other chunk tag / foreign tags."
+        ' Also: values given as 288/k ticks, names of 120-300 characters, twin bars, shared instrument objects, tempo-carrying containers, and one reader object used for two different files; a track without bars among the others, chords that are not in ascending order (after item assignment), entries held in a user subclass of NoteContainer and instruments of a user subclass of MidiInstrument.')
 ASSUMPTIONS = ["instrument numbers are compared for tracks with at least one sounding note (the program change rides on the first note-on)",
                "bars are re-cut by the reader: note content is compared on the flattened sequence only",
                "bpm domain 4..7000 (above ~7745 the 24-bit microseconds-per-quarter field cannot represent every integer bpm)",
@@ -127,7 +128,7 @@ def check_roundtrip(ctx, case):
                           lambda: "track %d: wrote %r, read %r" % (i, td["instr"]["nr"], getattr(t2.instrument, "instrument_nr", None)))
         else:
             ctx.check(getattr(t2.instrument, "instrument_nr", None) is None, "instrument-invented", lambda: "track %d: %r" % (i, t2.instrument))
-        if case.get("uniform"):
+        if case.get("uniform") and td["bars"]:
             key, meter = td["bars"][0]["key"], td["bars"][0]["meter"]
             for j, b in enumerate(t2.bars):
                 ctx.check(tuple(b.meter) == tuple(meter), "bar-meter", lambda: "track %d bar %d: meter %r, wrote %r" % (i, j, b.meter, meter))
@@ -169,6 +170,9 @@ def check_vlq(ctx, case):
     ctx.note_case(hi > 128, ["vlq:range"])
 
 
+SWAP_TAGS = [b"MTrk", b"MThd", b"RIFF", b"mthd", b"mtrk", b"dhTM", b"krTM", b"MThD", b"MTrK", b"\0\0\0\0", b"XFIH", b"MTr\n"]
+
+
 def check_corrupt(ctx, case):
     kind, pos, val = case
     cd = {"title": "", "subtitle": "", "author": "", "tracks": [
@@ -180,6 +184,17 @@ def check_corrupt(ctx, case):
     elif kind == "track-tag":
         offs = [k for k in range(len(data) - 3) if bytes(data[k:k + 4]) == b"MTrk"]
         i = offs[pos % len(offs)] + (pos // len(offs)) % 4
+    elif kind in ("header-swap", "track-swap"):  # the whole four-byte tag replaced by another tag (other chunk types included)
+        tag = SWAP_TAGS[val % len(SWAP_TAGS)]
+        if kind == "header-swap":
+            at = 0
+        else:
+            offs = [k for k in range(len(data) - 3) if bytes(data[k:k + 4]) == b"MTrk"]
+            at = offs[pos % len(offs)]
+        if bytes(data[at:at + 4]) == tag:
+            return ctx.note_case(False, ["corrupt:no-change"])
+        data[at:at + 4] = tag
+        i = None
     else:  # format word (bytes 8..9) set to a value outside {0,1,2}
         v = 3 + val % 65533
         data[8], data[9] = v >> 8, v & 255
@@ -215,6 +230,9 @@ def _cfg(**kw):
     long_name = st.text(alphabet=st.characters(min_codepoint=32, max_codepoint=126), min_size=120, max_size=300)
     base["text"] = st.one_of(base["text"], base["text"], base["text"], long_name)
     base["twin_p"] = 5
+    base["empty_track_p"] = 5
+    base["subclass_p"] = 8
+    base["unsorted_p"] = 6
     base["share_instruments"] = True
     base.update(kw)
     return SG.Cfg(**base)
@@ -271,10 +289,11 @@ def sub_vlq(ctx, shard, n):
 def sub_corrupt(ctx, shard, n):
     cases = [["header-tag", p, v] for p in range(4) for v in (0, 32, 77, 84, 104, 100, 255)] + \
             [["track-tag", p, v] for p in range(8) for v in (0, 32, 77, 84, 114, 107, 255)] + \
-            [["format", 0, v] for v in (0, 1, 2, 252, 253, 65532, 1000, 255, 256)]
+            [["format", 0, v] for v in (0, 1, 2, 252, 253, 65532, 1000, 255, 256)] + \
+            [[k, p, v] for k in ("header-swap", "track-swap") for p in range(2) for v in range(len(SWAP_TAGS))]
     ctx.exhaustive("corrupted tags / format words", "4 header bytes, 8 track-tag bytes x 7 values, 9 format words", len(cases))
     ctx.enumerate("corrupt", check_corrupt, cases)
-    strat = st.tuples(st.sampled_from(["header-tag", "track-tag", "format"]), st.integers(0, 7), st.integers(0, 65535)).map(list)
+    strat = st.tuples(st.sampled_from(["header-tag", "track-tag", "format", "header-swap", "track-swap"]), st.integers(0, 7), st.integers(0, 65535)).map(list)
     ctx.given("corrupt", check_corrupt, strat, 150 if ctx.quick else 3000)
 
 
